@@ -52,7 +52,12 @@ fn statuses(resp: &[u8]) -> Option<Vec<u8>> {
     if w.error.is_some() {
         return None;
     }
-    Some(w.headers.iter().flat_map(|h| h.objs.iter().map(|o| *o.bytes.last().unwrap_or(&0xFF))).collect())
+    Some(
+        w.headers
+            .iter()
+            .flat_map(|h| h.objs.iter().map(|o| *o.bytes.last().unwrap_or(&0xFF)))
+            .collect(),
+    )
 }
 
 fn small_controls(r: &mut Rng) -> Vec<u8> {
@@ -73,7 +78,11 @@ impl Cx<'_> {
             P,
             &format!("C04.{rule}"),
             sig,
-            J::obj(vec![("why", J::s(why)), ("config", self.cfg.to_json()), ("history", J::arr(self.hist.iter().cloned()))]),
+            J::obj(vec![
+                ("why", J::s(why)),
+                ("config", self.cfg.to_json()),
+                ("history", J::arr(self.hist.iter().cloned())),
+            ]),
             J::obj(vec![
                 ("check", J::s("c04")),
                 ("seed", J::U(self.a.seed)),
@@ -109,7 +118,11 @@ async fn run_history(a: &ShardArgs, idx: u64, steps: Vec<Step>, mut r: Rng, exha
     cfg.select_timeout_ms = *r.pick(&[100u64, 1000, 5000]);
     cfg.sol_tx = *r.pick(&[249usize, 2048]);
     cfg.decode = r.usize_below(108);
-    cfg.max_controls = if r.chance(1, 5) { Some(r.range(1, 3) as u16) } else { None };
+    cfg.max_controls = if r.chance(1, 5) {
+        Some(r.range(1, 3) as u16)
+    } else {
+        None
+    };
     cfg.unsolicited = !exhaustive && r.chance(1, 5);
     cfg.confirm_timeout_ms = 60_000;
     cfg.discard = r.bool();
@@ -123,7 +136,12 @@ async fn run_history(a: &ShardArgs, idx: u64, steps: Vec<Step>, mut r: Rng, exha
     }
     let _ = sim.collect();
     let _ = sim.mock.take();
-    let mut cx = Cx { a, idx, cfg: cfg.clone(), hist: vec![] };
+    let mut cx = Cx {
+        a,
+        idx,
+        cfg: cfg.clone(),
+        hist: vec![],
+    };
     let mut seq: u8 = r.below(16) as u8;
     let mut sel: Option<Sel> = None;
     let mut last_frag: Option<Vec<u8>> = None;
@@ -166,7 +184,14 @@ async fn run_history(a: &ShardArgs, idx: u64, steps: Vec<Step>, mut r: Rng, exha
                 let _ = sim.mock.take();
                 if let Some(s) = &mut sel {
                     if s.intervening.is_none() {
-                        s.intervening = Some(format!("reconnect-{}", if step == Step::ReconnectClose { "close" } else { "preempt" }));
+                        s.intervening = Some(format!(
+                            "reconnect-{}",
+                            if step == Step::ReconnectClose {
+                                "close"
+                            } else {
+                                "preempt"
+                            }
+                        ));
                     }
                 }
                 last_frag = None;
@@ -186,7 +211,11 @@ async fn run_history(a: &ShardArgs, idx: u64, steps: Vec<Step>, mut r: Rng, exha
                 if r.chance(1, 3) || sel.is_none() {
                     last_objs = small_controls(&mut r);
                 }
-                send = Some((master, out_addr, ra::B::request(ra::F_SELECT, seq).raw(&last_objs).done()));
+                send = Some((
+                    master,
+                    out_addr,
+                    ra::B::request(ra::F_SELECT, seq).raw(&last_objs).done(),
+                ));
             }
             Step::Operate(same) => {
                 // sequence: usually select+1, sometimes something else
@@ -198,51 +227,87 @@ async fn run_history(a: &ShardArgs, idx: u64, steps: Vec<Step>, mut r: Rng, exha
                     (None, _) => next_seq(&mut r, seq),
                 };
                 seq = s;
-                let mut objs = sel.as_ref().map(|s| s.objs.clone()).unwrap_or_else(|| last_objs.clone());
+                let mut objs = sel
+                    .as_ref()
+                    .map(|s| s.objs.clone())
+                    .unwrap_or_else(|| last_objs.clone());
                 if !*same && !objs.is_empty() {
                     // one differing byte (value/index/count — keep it parseable: flip in an object body)
                     let k = objs.len() - 2;
                     objs[k] ^= 0x01;
                     label = "Operate(one byte differs)".into();
                 }
-                send = Some((master, out_addr, ra::B::request(ra::F_OPERATE, seq).raw(&objs).done()));
+                send = Some((
+                    master,
+                    out_addr,
+                    ra::B::request(ra::F_OPERATE, seq).raw(&objs).done(),
+                ));
             }
             Step::DirectOperate => {
                 seq = next_seq(&mut r, seq);
-                let f = if r.bool() { ra::F_DIRECT_OPERATE } else { ra::F_DIRECT_OPERATE_NR };
-                send = Some((master, out_addr, ra::B::request(f, seq).raw(&last_objs).done()));
+                let f = if r.bool() {
+                    ra::F_DIRECT_OPERATE
+                } else {
+                    ra::F_DIRECT_OPERATE_NR
+                };
+                send = Some((
+                    master,
+                    out_addr,
+                    ra::B::request(f, seq).raw(&last_objs).done(),
+                ));
             }
             Step::Read => {
                 seq = next_seq(&mut r, seq);
-                send = Some((master, out_addr, ra::B::request(ra::F_READ, seq).all(60, 1).done()));
+                send = Some((
+                    master,
+                    out_addr,
+                    ra::B::request(ra::F_READ, seq).all(60, 1).done(),
+                ));
             }
             Step::Confirm => {
-                send = Some((master, out_addr, ra::B::confirm(r.below(16) as u8, r.bool()).done()));
+                send = Some((
+                    master,
+                    out_addr,
+                    ra::B::confirm(r.below(16) as u8, r.bool()).done(),
+                ));
             }
             Step::Malformed => {
                 seq = next_seq(&mut r, seq);
                 let f = match r.below(3) {
                     0 => vec![0xC0 | seq, 0x70],
-                    1 => ra::B::request(ra::F_SELECT, seq).raw(&[12, 1, 0x17, 2, 0]).done(),
+                    1 => ra::B::request(ra::F_SELECT, seq)
+                        .raw(&[12, 1, 0x17, 2, 0])
+                        .done(),
                     _ => vec![0xC0 | seq],
                 };
                 send = Some((master, out_addr, f));
             }
             Step::Broadcast => {
-                let f = ra::B::request(ra::F_DIRECT_OPERATE_NR, r.below(16) as u8).raw(&last_objs).done();
+                let f = ra::B::request(ra::F_DIRECT_OPERATE_NR, r.below(16) as u8)
+                    .raw(&last_objs)
+                    .done();
                 send = Some((master, 0xFFFD + r.below(3) as u16, f));
             }
             Step::Foreign => {
-                let f = ra::B::request(ra::F_READ, r.below(16) as u8).all(60, 1).done();
+                let f = ra::B::request(ra::F_READ, r.below(16) as u8)
+                    .all(60, 1)
+                    .done();
                 send = Some((7, out_addr, f));
             }
         }
         let (src, dest, frag) = send.unwrap();
-        let is_repeat = last_frag.as_deref() == Some(frag.as_slice()) && src == master && dest == out_addr;
+        let is_repeat =
+            last_frag.as_deref() == Some(frag.as_slice()) && src == master && dest == out_addr;
         let func = if frag.len() >= 2 { frag[1] } else { 0xFF };
         let fseq = frag[0] & 0x0F;
-        let wellformed_unicast = src == master && dest == out_addr && frag.len() >= 2 && frag[0] & 0xF0 == 0xC0;
-        cx.hist.push(format!("t={} {label} seq={} {}", now, fseq, hex(&frag[..frag.len().min(48)])));
+        let wellformed_unicast =
+            src == master && dest == out_addr && frag.len() >= 2 && frag[0] & 0xF0 == 0xC0;
+        cx.hist.push(format!(
+            "t={} {label} seq={} {}",
+            now,
+            fseq,
+            hex(&frag[..frag.len().min(48)])
+        ));
 
         // reference: is an OPERATE justified?
         let mut verdict: Option<(bool, String, bool)> = None; // (justified, reason, strict)
@@ -274,7 +339,11 @@ async fn run_history(a: &ShardArgs, idx: u64, steps: Vec<Step>, mut r: Rng, exha
         settle().await;
         let rx = sim.collect();
         let evs = sim.mock.take();
-        let resp: Option<Vec<u8>> = rx.iter().filter_map(|x| x.fragment()).find(|f| f.len() >= 2 && f[1] == ra::F_RESPONSE && f[0] & 0x0F == fseq).map(|f| f.to_vec());
+        let resp: Option<Vec<u8>> = rx
+            .iter()
+            .filter_map(|x| x.fragment())
+            .find(|f| f.len() >= 2 && f[1] == ra::F_RESPONSE && f[0] & 0x0F == fseq)
+            .map(|f| f.to_vec());
 
         if let Some((justified, why, strict)) = verdict {
             out::eval(1);
@@ -287,7 +356,10 @@ async fn run_history(a: &ShardArgs, idx: u64, steps: Vec<Step>, mut r: Rng, exha
                 })
                 .collect();
             let unsol_state = if cfg.unsolicited { "unsol" } else { "polled" };
-            out::distinct(&format!("{why}/{unsol_state}/repeats{}", sel.as_ref().map(|s| s.repeats.min(2)).unwrap_or(0)));
+            out::distinct(&format!(
+                "{why}/{unsol_state}/repeats{}",
+                sel.as_ref().map(|s| s.repeats.min(2)).unwrap_or(0)
+            ));
             if justified && strict {
                 if ops != want {
                     cx.viol("converse", &format!("not-executed-once|{unsol_state}"), format!("SELECT directly followed by its matching OPERATE: handler saw {} operate calls for {} objects", ops.len(), want.len()));
@@ -296,7 +368,11 @@ async fn run_history(a: &ShardArgs, idx: u64, steps: Vec<Step>, mut r: Rng, exha
                 }
             } else if justified {
                 if !(ops.is_empty() || ops == want) {
-                    cx.viol("partial", "after-repeat", format!("{} of {} objects operated", ops.len(), want.len()));
+                    cx.viol(
+                        "partial",
+                        "after-repeat",
+                        format!("{} of {} objects operated", ops.len(), want.len()),
+                    );
                 } else if ops.is_empty() {
                     out::count("justified_after_repeat_rejected", 1);
                 } else {
@@ -304,11 +380,30 @@ async fn run_history(a: &ShardArgs, idx: u64, steps: Vec<Step>, mut r: Rng, exha
                 }
             } else {
                 if !ops.is_empty() {
-                    cx.viol("unjustified_operate", &why, format!("OPERATE reached the control handler ({} calls) although: {why}", ops.len()));
+                    cx.viol(
+                        "unjustified_operate",
+                        &why,
+                        format!(
+                            "OPERATE reached the control handler ({} calls) although: {why}",
+                            ops.len()
+                        ),
+                    );
                 } else {
                     out::count("unjustified_rejected", 1);
                 }
-                let echo = resp.as_ref().map(|rp| answered.iter().any(|(q, a)| q == &frag && a.len() == rp.len() && a.len() >= 4 && (a[0] | ra::CON) == (rp[0] | ra::CON) && a[1] == rp[1] && a[4..] == rp[4..])).unwrap_or(false);
+                let echo = resp
+                    .as_ref()
+                    .map(|rp| {
+                        answered.iter().any(|(q, a)| {
+                            q == &frag
+                                && a.len() == rp.len()
+                                && a.len() >= 4
+                                && (a[0] | ra::CON) == (rp[0] | ra::CON)
+                                && a[1] == rp[1]
+                                && a[4..] == rp[4..]
+                        })
+                    })
+                    .unwrap_or(false);
                 if echo {
                     // byte-identical request answered with the earlier response (IIN octets may be refreshed; C05 judges that): a
                     // retransmission answered from memory, nothing was actuated (checked above)
@@ -317,7 +412,13 @@ async fn run_history(a: &ShardArgs, idx: u64, steps: Vec<Step>, mut r: Rng, exha
                     match statuses(rp) {
                         Some(st) => {
                             if st.iter().any(|s| *s == 0) {
-                                cx.viol("unjustified_success", &why, format!("unjustified OPERATE answered with SUCCESS status ({why})"));
+                                cx.viol(
+                                    "unjustified_success",
+                                    &why,
+                                    format!(
+                                        "unjustified OPERATE answered with SUCCESS status ({why})"
+                                    ),
+                                );
                             }
                         }
                         None => {}
@@ -346,7 +447,8 @@ async fn run_history(a: &ShardArgs, idx: u64, steps: Vec<Step>, mut r: Rng, exha
             if let (Some(want), Some(rp)) = (&want, &resp) {
                 if let Some(fr) = ra::Fragment::parse(rp) {
                     let got = objects_of(ra::F_RESPONSE, &fr.objects);
-                    valid = got.as_ref() == Some(want) && fr.iin.map(|i| i.1 & ra::IIN2_ERRORS == 0).unwrap_or(false);
+                    valid = got.as_ref() == Some(want)
+                        && fr.iin.map(|i| i.1 & ra::IIN2_ERRORS == 0).unwrap_or(false);
                 }
             }
             if valid {
@@ -354,7 +456,14 @@ async fn run_history(a: &ShardArgs, idx: u64, steps: Vec<Step>, mut r: Rng, exha
             } else {
                 out::count("selects_failed", 1);
             }
-            sel = Some(Sel { seq: fseq, objs, t0: now, valid, intervening: None, repeats: 0 });
+            sel = Some(Sel {
+                seq: fseq,
+                objs,
+                t0: now,
+                valid,
+                intervening: None,
+                repeats: 0,
+            });
         } else if let Some(s) = &mut sel {
             if s.intervening.is_none() {
                 s.intervening = Some(match &step {
@@ -381,7 +490,11 @@ async fn run_history(a: &ShardArgs, idx: u64, steps: Vec<Step>, mut r: Rng, exha
         }
     }
     for p in crate::verif::util::take_panics() {
-        cx.viol("panic", &crate::verif::util::norm_location(&p.location), format!("panic {} at {}", p.message, p.location));
+        cx.viol(
+            "panic",
+            &crate::verif::util::norm_location(&p.location),
+            format!("panic {} at {}", p.message, p.location),
+        );
     }
     if out::sample_count() < 2 {
         out::sample(J::obj(vec![("history", J::arr(cx.hist.iter().cloned()))]));
@@ -423,7 +536,11 @@ fn random_history(r: &mut Rng) -> Vec<Step> {
 fn wrap_history(r: &mut Rng) -> Vec<Step> {
     let mut v = vec![Step::Select];
     for _ in 0..r.range(14, 16) {
-        v.push(if r.bool() { Step::Read } else { Step::DirectOperate });
+        v.push(if r.bool() {
+            Step::Read
+        } else {
+            Step::DirectOperate
+        });
     }
     v.push(Step::Operate(true));
     v
@@ -445,7 +562,10 @@ const ALPHABET: [Step; 12] = [
 ];
 
 pub fn run(a: &ShardArgs) -> Result<(), String> {
-    let only: Option<u64> = a.replay.as_ref().and_then(|p| super::common::replay_scenario(p));
+    let only: Option<u64> = a
+        .replay
+        .as_ref()
+        .and_then(|p| super::common::replay_scenario(p));
     let n = a.n(12_000);
     // systematic part: all histories SELECT x y OPERATE and SELECT x OPERATE over the alphabet (12 + 144)
     // plus all length<=3 histories in thorough runs
@@ -453,7 +573,12 @@ pub fn run(a: &ShardArgs) -> Result<(), String> {
     for x in &ALPHABET {
         systematic.push(vec![Step::Select, x.clone(), Step::Operate(true)]);
         for y in &ALPHABET {
-            systematic.push(vec![Step::Select, x.clone(), y.clone(), Step::Operate(true)]);
+            systematic.push(vec![
+                Step::Select,
+                x.clone(),
+                y.clone(),
+                Step::Operate(true),
+            ]);
             if a.thorough() {
                 for z in &ALPHABET {
                     systematic.push(vec![x.clone(), y.clone(), z.clone(), Step::Operate(true)]);
